@@ -6,6 +6,7 @@ well formed.
 import EtkVerif.Cfg.Model
 import EtkVerif.Smt.Lemmas
 import EtkVerif.Annot.Lemmas
+import EtkVerif.Cfg.Queries
 namespace EtkVerif
 namespace Cfg
 open Annot Smt Evm
@@ -45,6 +46,111 @@ def successor (anns : List Annotated) : Outcome → Node
       | some j => if (anns[j]?.map (·.jumpTarget)).getD false then .block j else .badJump
       | none => .badJump
 
+
+/-! ### consequences of `Setup` -/
+
+theorem Setup.get {t : OpTable} {bs : List Blocks.Block} {anns : List Annotated} (hS : Setup t bs anns)
+    (i : Nat) (a : Annotated) (ha : anns[i]? = some a) :
+    ∃ b, bs[i]? = some b ∧ b ∈ bs ∧ annotate t b = .ok a := by
+  have hi : i < bs.length := by
+    rw [← hS.len]
+    exact (List.getElem?_eq_some_iff.1 ha).1
+  obtain ⟨a', h1, h2⟩ := hS.ann i hi
+  rw [ha] at h1
+  injection h1 with h1
+  subst h1
+  exact ⟨bs[i], List.getElem?_eq_getElem hi, List.getElem_mem hi, h2⟩
+
+theorem Setup.small' {t : OpTable} {bs : List Blocks.Block} {anns : List Annotated} (hS : Setup t bs anns) :
+    ∀ a ∈ anns, a.offset < 2 ^ 256 := by
+  intro a ha
+  obtain ⟨i, hi⟩ := List.getElem?_of_mem ha
+  obtain ⟨b, -, hb, hann⟩ := hS.get i a hi
+  have h1 := (annotate_extent t b a hann).1
+  have h2 := hS.small b hb
+  have : (65536 : Nat) < 2 ^ 256 := by decide
+  omega
+
+theorem Setup.distinct' {t : OpTable} {bs : List Blocks.Block} {anns : List Annotated} (hS : Setup t bs anns) :
+    DistinctOffsets anns := by
+  intro i j a b hi hj hab
+  obtain ⟨bi, hbi, -, hai⟩ := hS.get i a hi
+  obtain ⟨bj, hbj, -, haj⟩ := hS.get j b hj
+  have h1 := (annotate_extent t bi a hai).1
+  have h2 := (annotate_extent t bj b haj).1
+  refine hS.distinct i j (List.getElem?_eq_some_iff.1 hbi).1 (List.getElem?_eq_some_iff.1 hbj).1 ?_
+  rw [hbi, hbj]
+  simp only [Option.map_some]
+  rw [← h1, ← h2, hab]
+
+theorem Setup.wf {t : OpTable} {bs : List Blocks.Block} {anns : List Annotated} (hS : Setup t bs anns)
+    (i : Nat) (a : Annotated) (ha : anns[i]? = some a) : Exit.wf a.exit := by
+  obtain ⟨b, -, -, hann⟩ := hS.get i a ha
+  have h := (annotate_wf t b a hann).2
+  cases hx : a.exit with
+  | terminate => trivial
+  | fallThrough f => trivial
+  | unconditional e => rw [hx] at h; exact h
+  | branch c d f => rw [hx] at h; exact h
+
+/-- The execution's outcome is the one the annotated exit describes. -/
+theorem Setup.exitAgrees {t : OpTable} {bs : List Blocks.Block} {anns : List Annotated} (hS : Setup t bs anns)
+    (i : Nat) (b : Blocks.Block) (a : Annotated) (hb : bs[i]? = some b) (ha : anns[i]? = some a)
+    (E : Env) (ω : Nat → Word) (entry : List Word) (hd : a.inputs ≤ entry.length)
+    (o : Outcome) (ho : execBlock E ω b.ops b.offset 0 entry = some o) :
+    ExitAgrees E ω entry a o := by
+  obtain ⟨b', hb', hmem, hann⟩ := hS.get i a ha
+  rw [hb] at hb'
+  injection hb' with hb'
+  subst hb'
+  obtain ⟨o', ho', hag⟩ := annotate_sound t b a hann (hS.sizes b hmem) (hS.small b hmem) E ω entry hd
+  rw [ho] at ho'
+  injection ho' with ho'
+  subst ho'
+  exact hag
+
+theorem blockAt_eq (anns : List Annotated) (pc : Nat) : blockAt anns pc = findIdx anns pc := rfl
+
+/-- The EVM successor is the node selected by the values of the exit's expressions. -/
+theorem successor_eq (anns : List Annotated) (E : Env) (ω : Nat → Word) (entry : List Word)
+    (a : Annotated) (o : Outcome) (h : ExitAgrees E ω entry a o) :
+    ∃ v c, successor anns o = targetOf anns a.exit v c ∧
+      (match a.exit with
+       | .unconditional e => (Tree.eval E ω (bind entry) e).toNat = v
+       | .branch ce te _ => (Tree.eval E ω (bind entry) te).toNat = v ∧
+           (Tree.eval E ω (bind entry) ce).toNat = c
+       | _ => True) := by
+  cases o with
+  | halt =>
+    have hx : a.exit = .terminate := h
+    rw [hx]
+    exact ⟨0, 0, rfl, trivial⟩
+  | fall pc st =>
+    obtain ⟨hx, -⟩ := h
+    rw [hx]
+    refine ⟨0, 0, ?_, trivial⟩
+    simp only [successor, targetOf, blockAt_eq]
+    cases findIdx anns pc <;> rfl
+  | jump d st =>
+    obtain ⟨⟨e, hx, he⟩, -⟩ := h
+    rw [hx]
+    refine ⟨d.toNat, 0, rfl, ?_⟩
+    show (Tree.eval E ω (bind entry) e).toNat = d.toNat
+    rw [he]
+  | jumpi d c f st =>
+    obtain ⟨⟨ce, te, hx, hte, hce⟩, -⟩ := h
+    rw [hx]
+    refine ⟨d.toNat, c.toNat, ?_, ?_⟩
+    · simp only [successor, targetOf, blockAt_eq]
+      by_cases hc : c.toNat = 0
+      · rw [if_pos hc, if_pos hc]
+        cases findIdx anns f <;> rfl
+      · rw [if_neg hc, if_neg hc]
+        rfl
+    · show (Tree.eval E ω (bind entry) te).toNat = d.toNat ∧ (Tree.eval E ω (bind entry) ce).toNat = c.toNat
+      rw [hte, hce]
+      exact ⟨rfl, rfl⟩
+
 /-- T-cfg0: every transfer of every local execution is an edge of the graph as first built. -/
 theorem cfgNew_complete (t : OpTable) (bs : List Blocks.Block) (anns : List Annotated) (hS : Setup t bs anns)
     (g : Graph) (hg : cfgNew anns = .ok g)
@@ -52,7 +158,10 @@ theorem cfgNew_complete (t : OpTable) (bs : List Blocks.Block) (anns : List Anno
     (E : Env) (ω : Nat → Word) (entry : List Word) (hd : a.inputs ≤ entry.length)
     (o : Outcome) (ho : execBlock E ω b.ops b.offset 0 entry = some o) :
     (i, successor anns o) ∈ g.edges := by
-  sorry
+  have hag := hS.exitAgrees i b a hb ha E ω entry hd o ho
+  obtain ⟨v, c, hs, -⟩ := successor_eq anns E ω entry a o hag
+  rw [hs]
+  exact targetOf_mem anns g hg i a ha v c
 
 /-- T-cfg1: with a sound solver, refinement keeps every such edge (it removes
 only edges no execution can take). -/
@@ -63,7 +172,34 @@ theorem refine_complete (t : OpTable) (bs : List Blocks.Block) (anns : List Anno
     (E : Env) (ω : Nat → Word) (entry : List Word) (hd : a.inputs ≤ entry.length)
     (o : Outcome) (ho : execBlock E ω b.ops b.offset 0 entry = some o) :
     (i, successor anns o) ∈ g'.edges := by
-  sorry
+  have hag := hS.exitAgrees i b a hb ha E ω entry hd o ho
+  obtain ⟨v, c, hs, hv⟩ := successor_eq anns E ω entry a o hag
+  obtain ⟨et, I, het, hI⟩ := exitToTerms_sound E ω (bind entry) a.exit (hS.wf i a ha)
+  have htgt : successor anns o = target anns I et := by
+    rw [hs, target_eq_targetOf anns I a.exit et het]
+    cases hx : a.exit with
+    | terminate => rfl
+    | fallThrough f => rfl
+    | unconditional e =>
+      rw [hx] at hI hv
+      cases et with
+      | unconditional u =>
+        simp only [] at hI hv
+        subst hv
+        simp only [targetOf, destVal, hI]
+      | _ => exact absurd hI id
+    | branch ce te f =>
+      rw [hx] at hI hv
+      cases et with
+      | branch ct dt f' =>
+        simp only [] at hI hv
+        obtain ⟨rfl, h1, h2⟩ := hI
+        obtain ⟨rfl, rfl⟩ := hv
+        simp only [targetOf, destVal, condVal, h1, h2]
+      | _ => exact absurd hI id
+  obtain ⟨h1, h2⟩ := kept_edge anns g hg hS.small' i a ha et het I
+  rw [htgt]
+  exact ((refine_ok sat g g' hr).2.2 _).2 ⟨h1, Kept.keepS sat hsat I _ h2⟩
 
 /-- Refinement never panics on a graph built by `cfgNew` from accepted blocks
 (the `unreachable!()` arms of the query builders are unreachable, and `to_z3`
@@ -71,12 +207,65 @@ is total on the annotator's expressions). -/
 theorem refine_total (t : OpTable) (bs : List Blocks.Block) (anns : List Annotated) (hS : Setup t bs anns)
     (g : Graph) (hg : cfgNew anns = .ok g) (sat : List BTerm → Bool) :
     ∃ g', refine sat g = .ok g' := by
-  sorry
+  apply refine_total_of
+  obtain ⟨m, hm, hbl, -⟩ := cfgNew_ok anns g hg
+  have ok := byOffset_ok anns m hm
+  rintro ⟨i, n⟩ he p
+  obtain ⟨a, ha, hs⟩ := (mem_edges anns g hg m hm i n).1 he
+  have hga : g.blocks[i]? = some a := by rw [hbl]; exact ha
+  have hsh := exitToTerms_shape a.exit (hS.wf i a ha)
+  have hjts : ∀ j ∈ jtsOf anns, ∃ c, g.blocks[j]? = some c := by
+    intro j hj
+    obtain ⟨c, hc, -⟩ := (mem_jtsOf anns j).1 hj
+    exact ⟨c, by rw [hbl]; exact hc⟩
+  have hft : ∀ f j, lookup m f = some j → ∃ c, g.blocks[j]? = some c := by
+    intro f j hl
+    obtain ⟨c, hc, -⟩ := (ok.mem f j).1 ((lookup_eq_some_iff m ok.asc f j).1 hl)
+    exact ⟨c, by rw [hbl]; exact hc⟩
+  cases hx : a.exit with
+  | terminate =>
+    rw [hx] at hs hsh
+    simp only [EdgeSpec, ExitShape] at hs hsh
+    subst hs
+    simp [queryOf, hga, qTerminate, hx, hsh]
+  | fallThrough f =>
+    rw [hx] at hs hsh
+    simp only [EdgeSpec, ExitShape] at hs hsh
+    subst hs
+    cases hl : lookup m f with
+    | none => simp [ftNode, queryOf, hga, qTerminate, hx, hsh]
+    | some j =>
+      obtain ⟨c, hc⟩ := hft f j hl
+      simp [ftNode, queryOf, hga, hc, qBlock, hx, hsh]
+  | unconditional e =>
+    rw [hx] at hs hsh
+    simp only [EdgeSpec, ExitShape] at hs hsh
+    obtain ⟨u, hu⟩ := hsh
+    rcases hs with rfl | ⟨j, hj, rfl⟩
+    · simp [queryOf, hga, qBadJump, hx, hu]
+    · obtain ⟨c, hc⟩ := hjts j hj
+      simp [queryOf, hga, hc, qBlock, hx, hu]
+  | branch ce te f =>
+    rw [hx] at hs hsh
+    simp only [EdgeSpec, ExitShape] at hs hsh
+    obtain ⟨ct, dt, hu⟩ := hsh
+    rcases hs with rfl | rfl | ⟨j, hj, rfl⟩
+    · cases hl : lookup m f with
+      | none => simp [ftNode, queryOf, hga, qTerminate, hx, hu]
+      | some j =>
+        obtain ⟨c, hc⟩ := hft f j hl
+        simp [ftNode, queryOf, hga, hc, qBlock, hx, hu]
+    · simp [queryOf, hga, qBadJump, hx, hu]
+    · obtain ⟨c, hc⟩ := hjts j hj
+      simp [queryOf, hga, hc, qBlock, hx, hu]
 
 /-- `cfgNew` succeeds when offsets are pairwise distinct. -/
 theorem cfgNew_total (t : OpTable) (bs : List Blocks.Block) (anns : List Annotated) (hS : Setup t bs anns) :
     ∃ g, cfgNew anns = .ok g := by
-  sorry
+  obtain ⟨m, hm⟩ := byOffset_total anns hS.distinct'
+  unfold cfgNew
+  rw [hm]
+  exact ⟨_, rfl⟩
 
 /-- T-wf (shape): one node per block (plus the two special nodes, which are
 never the source of an edge by construction of `Graph`); every edge leaves an
@@ -91,11 +280,67 @@ theorem cfg_shape (anns : List Annotated) (g : Graph) (hg : cfgNew anns = .ok g)
            (c.jumpTarget = true ∨ fallThroughOf a.exit = some c.offset)
        | .terminate => True
        | .badJump => (match a.exit with | .unconditional _ => True | .branch _ _ _ => True | _ => False)) := by
-  sorry
+  obtain ⟨m, hm, hbl, -⟩ := cfgNew_ok anns g hg
+  have ok := byOffset_ok anns m hm
+  refine ⟨hbl, edges_nodup anns g hg, ?_⟩
+  rintro ⟨i, n⟩ he
+  obtain ⟨a, ha, hs⟩ := (mem_edges anns g hg m hm i n).1 he
+  refine ⟨a, ha, ?_⟩
+  have hjts : ∀ j ∈ jtsOf anns, ∃ c, anns[j]? = some c ∧
+      (c.jumpTarget = true ∨ fallThroughOf a.exit = some c.offset) := by
+    intro j hj
+    obtain ⟨c, hc, hjt⟩ := (mem_jtsOf anns j).1 hj
+    exact ⟨c, hc, Or.inl hjt⟩
+  have hft : ∀ f j, fallThroughOf a.exit = some f → Node.block j = ftNode (lookup m f) →
+      ∃ c, anns[j]? = some c ∧ (c.jumpTarget = true ∨ fallThroughOf a.exit = some c.offset) := by
+    intro f j hf hl
+    cases hlk : lookup m f with
+    | none => rw [hlk] at hl; cases hl
+    | some k =>
+      rw [hlk] at hl
+      injection hl with hl
+      subst hl
+      obtain ⟨c, hc, hco⟩ := (ok.mem f j).1 ((lookup_eq_some_iff m ok.asc f j).1 hlk)
+      exact ⟨c, hc, Or.inr (by rw [hf, hco])⟩
+  cases n with
+  | terminate => trivial
+  | badJump =>
+    show match a.exit with | .unconditional _ => True | .branch _ _ _ => True | _ => False
+    cases hx : a.exit with
+    | terminate => rw [hx] at hs; cases hs
+    | fallThrough f =>
+      rw [hx] at hs
+      simp only [EdgeSpec] at hs
+      cases hl : lookup m f <;> rw [hl] at hs <;> cases hs
+    | unconditional e => trivial
+    | branch ce te f => trivial
+  | block j =>
+    show ∃ c, anns[j]? = some c ∧ (c.jumpTarget = true ∨ fallThroughOf a.exit = some c.offset)
+    cases hx : a.exit with
+    | terminate => rw [hx] at hs; cases hs
+    | fallThrough f =>
+      rw [hx] at hs hft
+      exact hft f j rfl hs
+    | unconditional e =>
+      rw [hx] at hs hjts
+      rcases hs with hs | ⟨k, hk, hs⟩
+      · cases hs
+      · injection hs with hs
+        subst hs
+        exact hjts j hk
+    | branch ce te f =>
+      rw [hx] at hs hjts hft
+      rcases hs with hs | hs | ⟨k, hk, hs⟩
+      · exact hft f j rfl hs
+      · cases hs
+      · injection hs with hs
+        subst hs
+        exact hjts j hk
 
 theorem refine_subgraph (sat : List BTerm → Bool) (g g' : Graph) (hr : refine sat g = .ok g') :
     g'.blocks = g.blocks ∧ g'.edges.Sublist g.edges := by
-  sorry
+  obtain ⟨h1, h2, -⟩ := refine_ok sat g g' hr
+  exact ⟨h1, h2⟩
 
 /-- T-wf (successors): after refinement with a sound solver every block keeps at
 least one successor, and a block that ends by falling through or halting has
@@ -110,7 +355,53 @@ theorem refine_successors (t : OpTable) (bs : List Blocks.Block) (anns : List An
      | .fallThrough f => ∀ n, (i, n) ∈ g'.edges ↔
          n = (match blockAt anns f with | some j => Node.block j | none => Node.terminate)
      | _ => True) := by
-  sorry
+  obtain ⟨m, hm, hbl, -⟩ := cfgNew_ok anns g hg
+  have ok := byOffset_ok anns m hm
+  have hlk := lookup_eq_findIdx anns m ok
+  obtain ⟨-, -, hmem⟩ := refine_ok sat g g' hr
+  obtain ⟨et, I, het, -⟩ := exitToTerms_sound envZero (fun _ => 0) (fun _ => 0) a.exit (hS.wf i a ha)
+  obtain ⟨h1, h2⟩ := kept_edge anns g hg hS.small' i a ha et het I
+  have hkept : (i, target anns I et) ∈ g'.edges := (hmem _).2 ⟨h1, Kept.keepS sat hsat I _ h2⟩
+  refine ⟨⟨_, hkept⟩, ?_⟩
+  have hspec : ∀ n, (i, n) ∈ g'.edges → EdgeSpec m (jtsOf anns) a.exit n := by
+    intro n hn
+    obtain ⟨a', ha', hs⟩ := (mem_edges anns g hg m hm i n).1 ((hmem _).1 hn).1
+    rw [ha] at ha'
+    injection ha' with ha'
+    subst ha'
+    exact hs
+  cases hx : a.exit with
+  | terminate =>
+    rw [hx] at het hspec
+    simp only [exitToTerms] at het
+    injection het with het
+    subst het
+    intro n
+    constructor
+    · exact hspec n
+    · rintro rfl
+      exact hkept
+  | fallThrough f =>
+    rw [hx] at het hspec
+    simp only [exitToTerms] at het
+    injection het with het
+    subst het
+    have hnode : (match blockAt anns f with | some j => Node.block j | none => Node.terminate)
+        = ftNode (findIdx anns f) := by
+      rw [blockAt_eq]
+      cases findIdx anns f <;> rfl
+    intro n
+    show _ ↔ n = (match blockAt anns f with | some j => Node.block j | none => Node.terminate)
+    rw [hnode]
+    constructor
+    · intro hn
+      have := hspec n hn
+      simp only [EdgeSpec, hlk] at this
+      exact this
+    · rintro rfl
+      exact hkept
+  | unconditional e => trivial
+  | branch ce te f => trivial
 
 end Cfg
 end EtkVerif
